@@ -1507,6 +1507,14 @@ class DirectoryTreeStructureSignatureTask : public Task {
       auto value = BuildValue::fromData(info.value);
       if (value.isExistingInput()) {
         code = hash_combine(code, value.getOutputInfo().mode);
+        // The node value describes what a symbolic link points to; also merge
+        // the type of the entry itself when it differs, so that replacing a
+        // file by a link to a file (or back) is a structural change.
+        SmallString<256> childPath{ path };
+        llvm::sys::path::append(childPath, info.filename);
+        auto linkInfo = getBuildSystem(ti).getFileSystem().getLinkInfo(childPath.str().str());
+        if (!linkInfo.isMissing() && linkInfo.mode != value.getOutputInfo().mode)
+          code = hash_combine(code, linkInfo.mode);
       } else {
         // If this node has been modified to report a non-file value, just merge
         // the encoded representation.
